@@ -175,8 +175,9 @@ fn check_quiescent(which: &str, c: &Case, r: &Run<'_>) -> Result<(), String> {
     for ev in tr.iter() { match *ev { Ev::Start(i) => started[i] = true, Ev::End(i) => ended[i] = true } }
     if r.limit.is_none() || r.limit == Some(0) {
         for i in 0..c.n {
-            if !started[i] && r.edges.iter().all(|&(a, b)| b != i || ended[a]) && (on("C06") || (running.is_empty() && on("C04"))) {
-                return Err(format!("{}: the call is idle (Pending, no wake-up outstanding) yet function {i} has not been started although all of its predecessors returned; running={running:?} ({}; {}) trace={:?}", if on("C06") { "C06" } else { "C04" }, r.label, c.desc, *tr));
+            // (C10: a limit of None or 0 means unbounded - the same observation judged under C10)
+            if !started[i] && r.edges.iter().all(|&(a, b)| b != i || ended[a]) && (on("C06") || on("C10") || (running.is_empty() && on("C04"))) {
+                return Err(format!("{}: the call is idle (Pending, no wake-up outstanding) yet function {i} has not been started although all of its predecessors returned{}; running={running:?} ({}; {}) trace={:?}", if which == "C10" { "C10" } else if on("C06") { "C06" } else { "C04" }, if which == "C10" { " and the limit is None / 0, i.e. unbounded" } else { "" }, r.label, c.desc, *tr));
             }
         }
     }
@@ -301,12 +302,16 @@ fn run_case(which: &'static str, c: &Case, seed: u64) -> Result<(), String> {
         }
     }
     // ---- C15: history of earlier runs, then the same run on the reused and on a fresh graph
-    if on("C15") && c.n <= 50 {
+    if on("C15") && (c.n <= 50 || c.desc.starts_with("C15-large")) {
+        let large = c.n > 50;
         for api in apis { for reverse in [false, true] {
+            if large && api == Api::TryForEach { continue; }
             // (api, reverse, dropped after k completions, Some(v) = through the v-th entry point that borrows the graph exclusively)
             let mut hists: Vec<Vec<(Api, bool, Option<usize>, Option<usize>)>> = vec![vec![(Api::ForEach, false, None, None)], vec![(Api::ForEach, true, None, None)], vec![(Api::Stream, false, Some(1usize), None)], vec![(Api::TryForEach, true, Some(0usize), None)],
                          vec![(Api::Stream, true, None, None), (Api::ForEach, false, Some(2usize), None)]];
-            for v in 0..MUT_VARIANTS {
+            // large graphs (state that is only kept beyond some size): a few mixed-order histories only
+            if large { hists = vec![vec![(Api::ForEach, false, None, None)], vec![(Api::ForEach, true, None, None)], vec![(Api::Stream, false, Some(3usize), None)], vec![(Api::Stream, true, Some(3usize), None), (Api::ForEach, false, None, None)]]; }
+            for v in 0..(if large { 0 } else { MUT_VARIANTS }) {
                 // every exclusive entry point: dropped at once, dropped after one completion (reverse where it takes options), run to the end
                 hists.push(vec![(Api::ForEach, false, Some(0usize), Some(v))]);
                 hists.push(vec![(Api::ForEach, true, Some(1usize), Some(v))]);
@@ -408,6 +413,9 @@ fn main() {
         Case { n: 6, accs: plain(6), edges: vec![(0, 2), (0, 3), (1, 4), (1, 5)], desc: "two roots with two successors each".into() },
         Case { n: 13, accs: plain(13), edges: vec![(0, 1), (0, 2), (0, 3), (1, 4), (1, 5), (1, 6), (2, 7), (2, 8), (2, 9), (3, 10), (3, 11), (3, 12)], desc: "two-level fan-out: root, 3 children, 3 leaves each".into() },
     ];
+    // histories on larger graphs (C15): mostly independent functions, so that the order in which ready functions are handed out is visible
+    cases.push(Case { n: 70, accs: plain(70), edges: vec![(0, 69)], desc: "C15-large: 70 functions, one edge 0 -> 69".into() });
+    cases.push(Case { n: 140, accs: plain(140), edges: vec![(0, 139), (5, 70), (70, 71)], desc: "C15-large: 140 functions, edges 0 -> 139, 5 -> 70 -> 71".into() });
     // large fan-in / fan-out (effects of narrow counters and budgets only show beyond 255 direct predecessors)
     cases.push(Case { n: 301, accs: plain(301), edges: (0..300).map(|i| (i, 300)).collect(), desc: "fan-in: 300 functions -> 1 sink".into() });
     cases.push(Case { n: 301, accs: plain(301), edges: (1..301).map(|i| (0, i)).collect(), desc: "fan-out: 1 root -> 300 functions".into() });
